@@ -7,11 +7,12 @@
 (* A call on an instance that was re-opened (fresh) starts at cursor 0; the  *)
 (* harness reports the cursor it observed before the call ("before").        *)
 (***************************************************************************)
-EXTENDS IsoCursor, VirtualIso, Json, TLC
+EXTENDS IsoCursor, IsoLayout, Json, TLC
 
 Trace == ndJsonDeserialize("trace.ndjson")
 
 CONSTANT Mode   \* "content" (C07: Represents) | "structure" (C08: ValidVolume) | "both"
+LayoutMaxDirs == 200
 
 VARIABLES l, total, pos, ok
 
@@ -58,6 +59,8 @@ TraceVolume ==
                ELSE IF Mode # "structure" THEN {"NoDecodeErrors"} ELSE {}
      IN /\ (failed \cup fc # {} => PrintT(<<"FAILED", e.name, failed \cup fc>>))
         /\ failed = {} /\ fc = {}
+        \* not a verdict: does the image also follow the reference layout (IsoLayout)?  Reported in the evidence.
+        /\ PrintT(<<"LAYOUT", e.name, IF Len(e.vol.hier) = 2 /\ Len(e.vol.hier[1].dirs) <= LayoutMaxDirs THEN LayoutVerdict(e.vol) ELSE "skipped">>)
   /\ UNCHANGED <<total, pos, ok>>
 
 (* C18: a further open of the same unchanged directory gives an image of the  *)
